@@ -151,7 +151,7 @@ Fixpoint take_outs (n : nat) (ss : list bytes) (zs : list Z) : option (list out_
     match ss, zs with
     | s :: ss', mode :: maxr :: maxb :: zs' =>
       match p_ser s, take_outs n' ss' zs' with
-      | Some sc, Some r => Some ({| oc_ser := sc; oc_pack := Packer.fluentd_config mode maxr maxb [] |} :: r)
+      | Some sc, Some r => Some ({| oc_kind := OFluentd sc; oc_pack := Packer.fluentd_config mode maxr maxb [] |} :: r)
       | _, _ => None
       end
     | _, _ => None
@@ -176,12 +176,12 @@ Definition decode_config (O : Transforms.oracles) (c : case) : option (config * 
           Parser.new_parser (Z.to_N (zarg c 1)) (Z.to_N (zarg c 2)) mapping with
     | Some ex, Some tr, Some locs, Some okeys, Some mkeys, Some tag, Some outs, Ok pcfg =>
       if (length schema <=? nfields)%nat && negb (Serializer.is_nil onames) &&
-         forallb (fun o => Serializer.verify_config schema (oc_ser o)) outs && negb (Serializer.is_nil outs) && negb (Serializer.is_nil mapping)
+         forallb (fun o => match oc_kind o with OFluentd sc => Serializer.verify_config schema sc | ODatadog _ => true end) outs && negb (Serializer.is_nil outs) && negb (Serializer.is_nil mapping)
       then
         Some ({| c_parser := pcfg; c_nfields := nfields; c_schema := schema; c_locs := locs;
                  c_extract := ex; c_okeys := okeys; c_tag := tag; c_mkeys := mkeys; c_transforms := tr;
                  c_outputs := outs; c_buflen := 2 * Z.to_nat (zarg c 2); c_linebuf := Z.to_nat (zarg c 3);
-                 c_local_off := 0; c_fix_labels := true; c_fix_ser := true |},
+                 c_local_off := 0; c_json := (fun _ => []); c_fix_labels := true; c_fix_ser := true |},
               skipn (7 + nout) ss, skipn (7 + 3 * nout) zs)
       else None
     | _, _, _, _, _, _, _, _ => None
